@@ -59,9 +59,9 @@ def proof_gate(prop):
     return len(theorems), min(closed, len(theorems)) if not problems else 0, problems, theorems
 
 
-def run_cases(prop, cases):
+def run_cases(prop, cases, impl_extra=""):
     paths = common.write_shards(prop, cases)
-    impl, model, problems = common.run_both(paths)
+    impl, model, problems = common.run_both(paths, impl_extra=impl_extra)
     results = []
     for c in cases:
         ta, tb = [], []
@@ -72,6 +72,19 @@ def run_cases(prop, cases):
             if b: tb.append((ln, b))
         results.append((c, ta, tb))
     return results, impl, model, problems
+
+
+def scan_interior_mutability():
+    """supporting evidence for operand purity (not a proof): interior mutability and unsafe blocks in /repo/src"""
+    hits = []
+    pat = re.compile(r"\b(Cell|RefCell|Mutex|RwLock|Atomic\w+|UnsafeCell|static\s+mut|unsafe)\b")
+    for d, _, fs in os.walk("/repo/src"):
+        for f in fs:
+            if not f.endswith(".rs"): continue
+            for n, line in enumerate(open(os.path.join(d, f), errors="replace"), 1):
+                if line.lstrip().startswith("//"): continue
+                if pat.search(line): hits.append("%s:%d: %s" % (os.path.relpath(os.path.join(d, f), "/repo"), n, line.strip()[:100]))
+    return hits
 
 
 def load_known():
@@ -185,7 +198,24 @@ def check(prop, tier, seed):
         common.write_evidence(prop, tier, seed, coverage, time.time() - t0, violations, ["see trusted_base"])
         return 1
 
-    results, impl, model, problems = run_cases(prop, cases) if okd else ([], {}, {}, [])
+    results, impl, model, problems = run_cases(prop, cases, "--twice" if prop == "C20" else "") if okd else ([], {}, {}, [])
+    if prop == "C20" and okd:
+        # the same cases in further separate processes (fresh hash seeds): every observation must be identical
+        paths = [os.path.join(common.CASES, prop, f) for f in sorted(os.listdir(os.path.join(common.CASES, prop)))]
+        nondet = []
+        for rep in range(2 if tier == "quick" else 6):
+            again = common.run_impl_only(paths, "--twice")
+            for key in impl:
+                if again.get(key) != impl[key]:
+                    nondet.append((key, impl[key], again.get(key)))
+        coverage["process_runs"] = 3 if tier == "quick" else 7
+        coverage["scan_interior_mutability"] = scan_interior_mutability()
+        if nondet:
+            byid = {c["id"]: c for c in cases}
+            (cid, ln), a1, a2 = nondet[0]
+            path = write_replay(prop, "nondeterminism", byid[cid], [(ln, ["<differs between processes>"])], [(ln, [("det", "two processes disagree: %r vs %r" % (a1, a2))])], impl, model)
+            print("VIOLATION property=%s replay=%s" % (prop, path))
+            violations += 1
     known = load_known()
     known_hit = collections.Counter()
     tierA, tierB = [], []
